@@ -129,11 +129,6 @@ def glob (pat s : String) : Bool :=
 
 /-! ### util.synchronized -/
 
-def newTop (cbs : List TopCb) : M Nat := do
-  let tid ← freshId
-  modS fun s => { s with tops := s.tops ++ [{ tid := tid, cbs := cbs }] }
-  pure tid
-
 /-- outcome of `cmd.execute` -/
 inductive ExecRes where
   | value (body : String)            -- plain dict / None
@@ -151,7 +146,7 @@ def syncCoroutine (name : String) (c : Call) (extra : List TopCb) : M (R Nat) :=
   if a.restarting then pure (.error .conflict)
   else if a.slot.isSome then pure (.error .conflict)
   else
-    modA fun a => { a with slot := some name }
+    setSlot (some name)
     let tid ← newTop ([.release] ++ extra)
     exec fuelDefault (.call c (.top tid))
     armTop tid
@@ -163,9 +158,9 @@ def syncPlain (name : String) (body : M (R α)) : M (R α) := do
   if a.restarting then pure (.error .conflict)
   else if a.slot.isSome then pure (.error .conflict)
   else
-    modA fun a => { a with slot := some name }
+    setSlot (some name)
     let r ← body
-    modA fun a => { a with slot := none }
+    setSlot none
     pure r
 
 /-- a coroutine that is not synchronized (Kill.execute) -/
